@@ -149,6 +149,10 @@ def worker_main(argv):
             except invoker.HarnessError as ex:
                 agg["harness_errors"].append({"index": index, "error": str(ex)[:500]})
                 continue
+            except Exception:
+                import traceback
+                agg["harness_errors"].append({"index": index, "error": traceback.format_exc()[-1500:]})
+                continue
             agg["runs"] += 1
             agg["invocations"] += ctx.invocations
             agg["sim_days"] += ctx.sim_days
